@@ -549,6 +549,28 @@ impl World {
         World { cpus, geo, tx: vec![TxMessage::new_zeroed(); n], t: t0, keep_frames: false, frames: vec![] }
     }
 
+    /// devices of different sizes (the `k`-th device has `sizes[k]` transducers on the AUTD3 grid; 249 = a plain AUTD3):
+    /// operations whose wire size depends on the transducer count finish after different numbers of frames
+    pub fn with_sizes(sizes: &[usize], t0: u64) -> Self {
+        use autd3_core::geometry::{Device, Point3, Transducer, UnitQuaternion};
+        let devs: Vec<Device> = sizes
+            .iter()
+            .map(|&k| {
+                if k == NUM_TR {
+                    autd3::prelude::AUTD3 { pos: Point3::origin(), ..Default::default() }.into()
+                } else {
+                    Device::new(UnitQuaternion::identity(), (0..k).map(|i| Transducer::new(Point3::new(10.16 * (i % 18) as f32, 10.16 * (i / 18) as f32, 0.))).collect())
+                }
+            })
+            .collect();
+        let geo = Geometry::new(devs);
+        let mut cpus: Vec<CPUEmulator> = sizes.iter().enumerate().map(|(i, &k)| CPUEmulator::new(i, k)).collect();
+        for c in cpus.iter_mut() {
+            c.update_with_sys_time(DcSysTime::ZERO + Duration::from_nanos(t0));
+        }
+        World { cpus, geo, tx: vec![TxMessage::new_zeroed(); sizes.len()], t: t0, keep_frames: false, frames: vec![] }
+    }
+
     fn clear_payloads(&mut self) {
         self.frames.clear();
         for t in self.tx.iter_mut() {
